@@ -28,7 +28,7 @@ func MakeBitMasks(instruction []byte, bitmaskData []byte) (Bitmask, ExitReason) 
 	}
 
 	bitmask := make(Bitmask, instSize)
-	prev := 0
+	prev := -1 // previous instruction start (none yet)
 	for i := range instSize {
 		if bitmaskData[i/8]&(1<<(i%8)) > 0 {
 			bitmask[i] = 0x01
@@ -36,7 +36,7 @@ func MakeBitMasks(instruction []byte, bitmaskData []byte) (Bitmask, ExitReason) 
 			// (GP A.5) a basic block starts at 0 or right after a terminator n, i.e. at
 			// n+1+skip(n), and skip(n) is at most 24
 			// and it must hold a valid opcode
-			if (i == 0 || (IsBlockTerminator(instruction[prev]) && i-prev <= 25)) && IsValidOpcode(instruction[i]) {
+			if (i == 0 || (prev >= 0 && IsBlockTerminator(instruction[prev]) && i-prev <= 25)) && IsValidOpcode(instruction[i]) {
 				bitmask[i] |= 0x02
 			}
 
